@@ -275,6 +275,8 @@ type c03Exec struct {
 	depth     int
 	steps     int
 	Truncated bool
+	Dropped   bool                            // a branch of an undecided test was not explored (consecutive-take limit)
+	targs     map[*types.TypeParam]types.Type // type arguments of the generic function being interpreted
 }
 
 func newC03Exec(p *Prog, sc *c03Scenario) *c03Exec {
@@ -380,6 +382,39 @@ func c03Key(fn *ssa.Function, args, fv []c03V, mem map[ssa.Value]c03V) string {
 	return sb.String()
 }
 
+func (x *c03Exec) targsKey() string {
+	if len(x.targs) == 0 {
+		return ""
+	}
+	var l []string
+	for k, v := range x.targs {
+		l = append(l, k.String()+"="+v.String())
+	}
+	sort.Strings(l)
+	return "<" + strings.Join(l, ",") + ">"
+}
+
+// rtype resolves a type parameter of the generic function being interpreted to its type argument.
+func (x *c03Exec) rtype(t types.Type) types.Type {
+	for i := 0; i < 4; i++ {
+		tp, ok := t.(*types.TypeParam)
+		if !ok {
+			break
+		}
+		a, ok := x.targs[tp]
+		if !ok {
+			break
+		}
+		t = a
+	}
+	if pt, ok := t.(*types.Pointer); ok {
+		if e := x.rtype(pt.Elem()); e != pt.Elem() {
+			return types.NewPointer(e)
+		}
+	}
+	return t
+}
+
 // Run enumerates the abstract outcomes of fn called with args.
 func (x *c03Exec) Run(fn *ssa.Function, args []c03V) []c03Outcome {
 	return x.RunWith(fn, args, nil, nil)
@@ -391,7 +426,7 @@ func (x *c03Exec) RunWith(fn *ssa.Function, args, fv []c03V, mem map[ssa.Value]c
 	if len(fn.Blocks) == 0 {
 		return []c03Outcome{{Res: []c03V{c03U()}}}
 	}
-	key := c03Key(fn, args, fv, mem)
+	key := c03Key(fn, args, fv, mem) + x.targsKey()
 	if o, ok := x.memo[key]; ok {
 		return o
 	}
@@ -512,8 +547,16 @@ func (x *c03Exec) runPath(fn *ssa.Function, s *c03State) ([]*c03State, []c03Outc
 				// a concretely decided test (typically the header of a loop with a known trip
 				// count) re-arms the undecided tests it dominates: the consecutive-take limit is
 				// only there to bound loops whose own test is undecided
+				scc := c03SCC(fn)
+				me := scc[i.Block().Index]
+				exitTest := scc[s.blk.Succs[0].Index] != me || scc[s.blk.Succs[1].Index] != me
 				for f := range s.forks {
-					if f != i && i.Block().Dominates(f.Block()) {
+					if f == i {
+						continue
+					}
+					// ... also when the decided test is the exit test of the (possibly rotated) loop the
+					// undecided test sits in
+					if i.Block().Dominates(f.Block()) || (exitTest && f.Parent() == fn && scc[f.Block().Index] == me) {
 						delete(s.forks, f)
 					}
 				}
@@ -524,6 +567,7 @@ func (x *c03Exec) runPath(fn *ssa.Function, s *c03State) ([]*c03State, []c03Outc
 			cnt := s.forks[i]
 			for k := 0; k < 2; k++ {
 				if cnt[k] >= 2 {
+					x.Dropped = true
 					continue // loop with an unknown trip count: 0, 1 and 2 consecutive iterations are explored
 				}
 				n := s.clone()
@@ -578,6 +622,60 @@ func (x *c03Exec) runPath(fn *ssa.Function, s *c03State) ([]*c03State, []c03Outc
 	}
 }
 
+var c03SCCCache = map[*ssa.Function][]int{}
+
+// c03SCC numbers the strongly connected components of fn's CFG (Tarjan); blocks of one loop share a number.
+func c03SCC(fn *ssa.Function) []int {
+	if r, ok := c03SCCCache[fn]; ok {
+		return r
+	}
+	n := len(fn.Blocks)
+	index, low, comp := make([]int, n), make([]int, n), make([]int, n)
+	on := make([]bool, n)
+	for k := range index {
+		index[k], comp[k] = -1, -1
+	}
+	var stack []int
+	next, ncomp := 0, 0
+	var visit func(v int)
+	visit = func(v int) {
+		index[v], low[v] = next, next
+		next++
+		stack = append(stack, v)
+		on[v] = true
+		for _, sb := range fn.Blocks[v].Succs {
+			w := sb.Index
+			if index[w] < 0 {
+				visit(w)
+				if low[w] < low[v] {
+					low[v] = low[w]
+				}
+			} else if on[w] && index[w] < low[v] {
+				low[v] = index[w]
+			}
+		}
+		if low[v] == index[v] {
+			for {
+				w := stack[len(stack)-1]
+				stack = stack[:len(stack)-1]
+				on[w] = false
+				comp[w] = ncomp
+				if w == v {
+					break
+				}
+			}
+			ncomp++
+		}
+	}
+	for v := 0; v < n; v++ {
+		if index[v] < 0 {
+			visit(v)
+		}
+	}
+	c03SCCCache[fn] = comp
+	return comp
+}
+
 // refine records what a taken branch says about the operands of its condition.
 func (x *c03Exec) refine(s *c03State, cond ssa.Value, branch bool) {
 	for {
@@ -618,7 +716,7 @@ func (x *c03Exec) eval(s *c03State, v ssa.Value) c03V {
 			return c03NilV()
 		}
 		if c.Value == nil {
-			return c03ZeroOf(c.Type())
+			return c03ZeroOf(x.rtype(c.Type()))
 		}
 		switch c.Value.Kind() {
 		case constant.String:
@@ -860,7 +958,7 @@ func (x *c03Exec) step(s *c03State, in ssa.Instruction) string {
 	switch i := in.(type) {
 	case *ssa.Alloc:
 		s.regs[i] = c03V{K: c03Cell, Ref: i}
-		s.mem[i] = c03ZeroOf(i.Type().Underlying().(*types.Pointer).Elem())
+		s.mem[i] = c03ZeroOf(x.rtype(i.Type().Underlying().(*types.Pointer).Elem()))
 	case *ssa.Store:
 		a := x.eval(s, i.Addr)
 		switch {
@@ -983,7 +1081,7 @@ func (x *c03Exec) step(s *c03State, in ssa.Instruction) string {
 				xv = c03NonNilV()
 			}
 		}
-		xv.Ty = i.X.Type()
+		xv.Ty = x.rtype(i.X.Type())
 		s.regs[i] = xv
 	case *ssa.SliceToArrayPointer:
 		s.regs[i] = c03U()
@@ -1468,7 +1566,7 @@ func (x *c03Exec) call(s *c03State, site ssa.CallInstruction, fnv c03V, args []c
 		return nil, nil, true
 	}
 	// resolve the target
-	var callee *ssa.Function
+	var callee, raw *ssa.Function
 	var fv []c03V
 	name := ""
 	moduleIface := false
@@ -1479,10 +1577,11 @@ func (x *c03Exec) call(s *c03State, site ssa.CallInstruction, fnv c03V, args []c
 		}
 	} else {
 		callee = staticCallee(site)
+		raw = cc.StaticCallee()
 		if callee != nil {
 			fv = fnv.FV
 		} else if fnv.Fn != nil {
-			callee, fv = origin(fnv.Fn), fnv.FV
+			callee, fv, raw = origin(fnv.Fn), fnv.FV, fnv.Fn
 		}
 		if callee == nil {
 			// the target of the call is not known on this path
@@ -1493,6 +1592,10 @@ func (x *c03Exec) call(s *c03State, site ssa.CallInstruction, fnv c03V, args []c
 			return nil, nil, true
 		}
 		name = c03FuncName(callee)
+	}
+	if name == "sync.Once.Do" && len(args) == 2 && args[1].Fn != nil {
+		// lazily initialised state: the function runs (the first call is the one that matters for what it sets up)
+		callee, fv, raw, args, name = origin(args[1].Fn), args[1].FV, args[1].Fn, nil, c03FuncName(origin(args[1].Fn))
 	}
 	if name != "" {
 		s.events = append(s.events, c03Event{Name: name, Args: args})
@@ -1515,6 +1618,14 @@ func (x *c03Exec) call(s *c03State, site ssa.CallInstruction, fnv c03V, args []c
 			return nil, nil, true
 		}
 	}
+	if cc.IsInvoke() && moduleIface && len(args) > 0 && args[0].Ty == nil && args[0].K != c03Nil {
+		// an interface declared in the module with a single implementation in the module: that one
+		if it, ok := cc.Value.Type().Underlying().(*types.Interface); ok {
+			if t := x.soleImplementation(it); t != nil {
+				args[0].Ty = t
+			}
+		}
+	}
 	if cc.IsInvoke() && len(args) > 0 && args[0].Ty != nil {
 		if m := x.p.SSA.LookupMethod(args[0].Ty, cc.Method.Pkg(), cc.Method.Name()); m != nil && x.runnable(m) {
 			callee = origin(m)
@@ -1524,7 +1635,18 @@ func (x *c03Exec) call(s *c03State, site ssa.CallInstruction, fnv c03V, args []c
 		}
 	}
 	if x.runnable(callee) {
+		saved := x.targs
+		if raw != nil && len(raw.TypeArgs()) > 0 && callee.TypeParams() != nil && callee.TypeParams().Len() == len(raw.TypeArgs()) {
+			nt := map[*types.TypeParam]types.Type{}
+			for k, ta := range raw.TypeArgs() {
+				nt[callee.TypeParams().At(k)] = x.rtype(ta)
+			}
+			x.targs = nt
+		} else if callee.Parent() == nil {
+			x.targs = nil // closures keep the type arguments of the function they are nested in
+		}
 		outs := x.RunWith(callee, args, fv, c03Reach(s.mem, append(append([]c03V(nil), args...), fv...)))
+		x.targs = saved
 		for _, o := range outs {
 			if o.Panic != "" {
 				po := o
@@ -1564,6 +1686,57 @@ func (x *c03Exec) call(s *c03State, site ssa.CallInstruction, fnv c03V, args []c
 	}
 	x.bindUnknown(s, cc, res, taint)
 	return nil, nil, true
+}
+
+var c03SoleImpl = map[*Prog]map[string]types.Type{}
+
+// soleImplementation: the only type declared in the module (T or *T) that implements it, or nil.
+func (x *c03Exec) soleImplementation(it *types.Interface) types.Type {
+	if it.NumMethods() == 0 {
+		return nil
+	}
+	cache := c03SoleImpl[x.p]
+	if cache == nil {
+		cache = map[string]types.Type{}
+		c03SoleImpl[x.p] = cache
+	}
+	key := it.String()
+	if t, ok := cache[key]; ok {
+		return t
+	}
+	var found []types.Type
+	for _, pkg := range x.p.Pkgs {
+		if !strings.HasPrefix(pkg.PkgPath, x.p.ModPath) {
+			continue
+		}
+		sc := pkg.Types.Scope()
+		names := sc.Names()
+		sort.Strings(names)
+		for _, n := range names {
+			tn, ok := sc.Lookup(n).(*types.TypeName)
+			if !ok || tn.IsAlias() {
+				continue
+			}
+			nt, ok := tn.Type().(*types.Named)
+			if !ok || nt.TypeParams().Len() > 0 {
+				continue
+			}
+			if _, isIface := nt.Underlying().(*types.Interface); isIface {
+				continue
+			}
+			if types.Implements(nt, it) {
+				found = append(found, nt)
+			} else if pt := types.NewPointer(nt); types.Implements(pt, it) {
+				found = append(found, pt)
+			}
+		}
+	}
+	var res types.Type
+	if len(found) == 1 {
+		res = found[0]
+	}
+	cache[key] = res
+	return res
 }
 
 func (x *c03Exec) havocArgs(s *c03State, args []c03V) {
@@ -1722,13 +1895,30 @@ func (x *c03Exec) builtin(s *c03State, name string, args []c03V) (c03V, string) 
 			}
 		}
 		return c03U(), ""
-	case "min", "max":
-		if len(args) == 2 && args[0].K == c03Int && args[1].K == c03Int {
-			a, b := args[0].I, args[1].I
-			if (name == "min") == (a < b) {
-				return c03IntV(a), ""
+	case "clear":
+		if len(args) == 1 && args[0].Ref != nil {
+			if args[0].K == c03MapV {
+				s.mem[args[0].Ref] = c03V{K: c03Struct, M: map[string]c03V{}}
+			} else {
+				s.havocElems(args[0].Ref)
 			}
-			return c03IntV(b), ""
+		}
+		return c03U(), ""
+	case "min", "max":
+		if len(args) >= 1 {
+			best, ok := args[0], args[0].K == c03Int
+			for _, a := range args[1:] {
+				if a.K != c03Int {
+					ok = false
+					break
+				}
+				if (name == "min") == (a.I < best.I) {
+					best = a
+				}
+			}
+			if ok {
+				return best, ""
+			}
 		}
 	}
 	return c03U(), ""
@@ -2167,6 +2357,72 @@ func (x *c03Exec) model(s *c03State, name string, args []c03V) (c03V, string, bo
 			return c03U(), "", true
 		}
 		return c03U(), "", true // Grow
+	case "encoding/binary.bigEndian.AppendUint64", "encoding/binary.bigEndian.AppendUint32", "encoding/binary.bigEndian.AppendUint16",
+		"encoding/binary.littleEndian.AppendUint64", "encoding/binary.littleEndian.AppendUint32", "encoding/binary.littleEndian.AppendUint16":
+		w := int64(8)
+		switch {
+		case strings.HasSuffix(name, "32"):
+			w = 4
+		case strings.HasSuffix(name, "16"):
+			w = 2
+		}
+		if n, ok := c03Len(arg(1)); ok {
+			r := c03SliceV(n + w)
+			for _, part := range []c03V{arg(1)} {
+				if len(part.Segs) > 0 {
+					r.Segs = append(r.Segs, part.Segs...)
+				} else if n > 0 {
+					r.Segs = append(r.Segs, n)
+				}
+			}
+			r.Segs = append(r.Segs, w)
+			return r, "", true
+		}
+		return c03SliceV(-1), "", true
+	case "crypto/subtle.XORBytes":
+		a, b := c03KnownLen(arg(1)), c03KnownLen(arg(2))
+		if a >= 0 && b >= 0 {
+			if b < a {
+				a = b
+			}
+			if d := c03KnownLen(arg(0)); d >= 0 && d < a {
+				return c03U(), "subtle.XORBytes panics: dst too short", true
+			}
+			return c03IntV(a), "", true
+		}
+		return c03U(), "", true
+	case "slices.Grow", "bytes.TrimSpace":
+		if name == "slices.Grow" {
+			return arg(0), "", true
+		}
+		return c03U(), "", false
+	case "strings.Repeat":
+		if a, n := arg(0), arg(1); a.K == c03Str && n.K == c03Int && n.I >= 0 && n.I < 1024 {
+			return c03StrV(strings.Repeat(a.S, int(n.I))), "", true
+		}
+		return c03TaintedU(), "", true
+	case "cmp.Or":
+		// first non-zero element of the variadic list
+		if es, ok := x.elemsOf(s, arg(0)); ok {
+			for _, e := range es {
+				switch e.K {
+				case c03Int:
+					if e.I != 0 {
+						return e, "", true
+					}
+				case c03Str:
+					if e.S != "" {
+						return e, "", true
+					}
+				default:
+					return c03V{Taint: true}, "", true
+				}
+			}
+			if len(es) > 0 {
+				return es[len(es)-1], "", true
+			}
+		}
+		return c03TaintedU(), "", true
 	case "strconv.Atoi":
 		if a := arg(0); a.K == c03Str {
 			if n, err := strconv.Atoi(a.S); err == nil {
